@@ -3,13 +3,15 @@ import ParamVerif.TimeDyn.Spec
 open Lean ParamVerif ParamVerif.Proto ParamVerif.TimeDyn
 
 /-- driver instantiation of the opaque functions: values are symbolic keys -/
-def symEnv : Env String String :=
-  { hash := fun n s t => s!"td|{n}|{s}|{t}", draw := id, stream := fun sid k => s!"st|{sid}|{k}" }
+def symEnv : Env String (String × Nat) String :=
+  { hash := fun n s t => s!"td|{n}|{s}|{t}", reseed := fun h => (h, 0),
+    next := fun st => (s!"{st.1}#{st.2}", (st.1, st.2 + 1)), init := fun sid => (s!"st|{sid}", 0) }
 
 def parseKind (j : Json) : Except String GenKind := do
   let a ← j.getArr?
   match ← a[0]!.getStr? with
   | "td" => return .td (← a[1]!.getStr?) (← a[2]!.getInt?)
+  | "sm" => return .sampled (← a[1]!.getStr?) (← a[2]!.getInt?) (← a[3]!.getInt?) (← a[4]!.getInt?)
   | "st" => return .stream (← a[1]!.getNat?)
   | k => throw s!"unknown generator kind {k}"
 
@@ -98,6 +100,7 @@ def jSnap (s : Snap) : Json :=
 
 def jKind : GenKind → Json
   | .td n s => Json.arr #[Json.str "td", Json.str n, toJson s]
+  | .sampled n s p o => Json.arr #[Json.str "sm", Json.str n, toJson s, toJson p, toJson o]
   | .stream sid => Json.arr #[Json.str "st", toJson sid]
 
 def jCaches (c : List (OV × Option Int × Nat × Nat)) : Json :=
@@ -164,10 +167,10 @@ def handle (req : Json) : Except String Json := do
   let defaults ← params.toList.mapM fun p => do parseSrc (← p.getObjVal? "default")
   let ops ← (← getArr case "ops").toList.mapM parseOp
   -- the class statement: every default goes through Dynamic.__init__ -> _initialize_generator
-  let wEmpty : World String :=
+  let wEmpty : World (String × Nat) String :=
     { dynTD := dynTD, clock := Clock.init, gens := [], ptypes := ptypes,
       defaults := ptypes.map fun _ => .const 0, insts := [] }
-  let (w0, _) ← (defaults.foldlM (fun (acc : World String × Nat) src =>
+  let (w0, _) ← (defaults.foldlM (fun (acc : World (String × Nat) String × Nat) src =>
       match assignSlot acc.1 .cls acc.2 src with
       | (.ok _, w') => pure (w', acc.2 + 1)
       | (.raised _, _) => throw "malformed class declaration") (wEmpty, 0) : Except String _)
@@ -188,6 +191,8 @@ def handle (req : Json) : Except String Json := do
       let what := match e.touched, e.res with
         | some { g := _, kind := .td _ _ }, .ok .none => ":td:placeholder"
         | some { g := _, kind := .td _ _ }, .ok _ => ":td"
+        | some { g := _, kind := .sampled _ _ _ _ }, .ok .none => ":sm:placeholder"
+        | some { g := _, kind := .sampled _ _ _ _ }, .ok _ => ":sm"
         | some { g := _, kind := .stream _ }, .ok .none => ":st:placeholder"
         | some { g := _, kind := .stream _ }, .ok _ => ":st"
         | _, .raised e => s!":raised:{e}"
